@@ -316,6 +316,35 @@ class Plumbing:
                     if isinstance(e, ast.Call) and kwarg(e, "data") is not None and (dotted(e.func) or "").split(".")[-1] in ("from_dict", "DataFrame"):
                         return resolve_dict(kwarg(e, "data"), depth + 1)
                     return None
+                def via_binding(target: ast.expr, it: ast.expr, value: ast.expr) -> tuple[str, str] | None:
+                    """`for d, col in enumerate(P.T)` / `zip(range(P.shape[1]), P.T)`: col is P.T[_I_], i.e. column _I_ of the parameter array P."""
+                    from .util import IDX, loop_binding
+                    try:
+                        benv, counts = loop_binding(target, it)
+                    except AnalysisError:
+                        return None
+                    if isinstance(value, ast.Name) and value.id in benv:
+                        ve = benv[value.id]
+                        idx_names = [nm for nm, e_ in benv.items() if src(e_) == IDX]
+                        if isinstance(ve, ast.Subscript) and src(ve.slice) == IDX and isinstance(ve.value, ast.Attribute) and ve.value.attr == "T" and isinstance(ve.value.value, ast.Name) \
+                                and ve.value.value.id in params and idx_names and any(src(c_).replace(" ", "") in (f"{ve.value.value.id}.shape[1]", f"len({ve.value.value.id}.T)") for c_ in counts):
+                            return ve.value.value.id, idx_names[0]
+                        if isinstance(ve, ast.Subscript) and isinstance(ve.value, ast.Name) and ve.value.id in params and src(ve.slice).replace(" ", "") in (f"(:,{IDX})", f":,{IDX}") and idx_names \
+                                and any(src(c_).replace(" ", "") in (f"{ve.value.id}.shape[1]", f"len({ve.value.id}.T)") for c_ in counts):
+                            return ve.value.id, idx_names[0]
+                    return None
+
+                def comp_column(gen: ast.comprehension, key_e: ast.expr, val_e: ast.expr, node: ast.AST) -> bool:
+                    key = _str_const(key_e, env)
+                    p, w = classify_value(val_e)
+                    if p is not None and key is not None:
+                        record(p, Storage("csv", key, val_e, f"{w} for {src(gen.target)} in {src(gen.iter)}", node))
+                        return True
+                    vb = via_binding(gen.target, gen.iter, val_e)
+                    if vb is not None and key is not None:
+                        record(vb[0], Storage("csv", key, val_e, f"[(:, {vb[1]})] for {vb[1]} in range({vb[0]}.shape[1])", node))
+                        return True
+                    return False
                 src_dict = resolve_dict(df)
                 if not isinstance(src_dict, ast.Dict):
                     raise AnalysisError(f"{f.loc(eff.node)}: cannot find the dict literal behind the results DataFrame")
@@ -323,11 +352,7 @@ class Plumbing:
                     if k is None:
                         # `**{key(d): value(d) for d in <iter>}`: one column per d, like the loop form
                         if isinstance(v, ast.DictComp) and len(v.generators) == 1 and not v.generators[0].ifs:
-                            gen = v.generators[0]
-                            key = _str_const(v.key, env)
-                            p, w = classify_value(v.value)
-                            if p is not None and key is not None:
-                                record(p, Storage("csv", key, v.value, f"{w} for {src(gen.target)} in {src(gen.iter)}", v))
+                            if comp_column(v.generators[0], v.key, v.value, v):
                                 continue
                         raise AnalysisError(f"{f.loc(eff.node)}: cannot read the `**` part of the results dict")
                     key = _str_const(k, env)
@@ -374,20 +399,12 @@ class Plumbing:
                     if isinstance(u, ast.Name) and isinstance(env.get(u.id), (ast.Dict, ast.DictComp)):
                         u = env[u.id]
                     if isinstance(u, ast.DictComp) and len(u.generators) == 1 and not u.generators[0].ifs:
-                        gen = u.generators[0]
-                        key = _str_const(u.key, env)
-                        p, w = classify_value(u.value)
-                        if p is not None and key is not None:
-                            record(p, Storage("csv", key, u.value, f"{w} for {src(gen.target)} in {src(gen.iter)}", u))
+                        if comp_column(u.generators[0], u.key, u.value, u):
                             continue
                     elif isinstance(u, (ast.GeneratorExp, ast.ListComp)) and len(u.generators) == 1 and not u.generators[0].ifs \
                             and isinstance(u.elt, ast.Tuple) and len(u.elt.elts) == 2:
                         # `d.update((key(d), value(d)) for d in <iter>)`: the pair form of the same thing
-                        gen = u.generators[0]
-                        key = _str_const(u.elt.elts[0], env)
-                        p, w = classify_value(u.elt.elts[1])
-                        if p is not None and key is not None:
-                            record(p, Storage("csv", key, u.elt.elts[1], f"{w} for {src(gen.target)} in {src(gen.iter)}", u))
+                        if comp_column(u.generators[0], u.elt.elts[0], u.elt.elts[1], u):
                             continue
                     elif isinstance(u, ast.Dict) and all(k is not None for k in u.keys):
                         good = True
@@ -566,11 +583,24 @@ class Plumbing:
                     if isinstance(x, ast.Name) and x.id in uses:
                         uses[x.id].append(f"ctor:{k.arg}:via:{src(k.value)}")
         self.restore_stores: list[ast.stmt] = []
+        def unguarded(e: ast.expr) -> ast.expr:
+            # `DEFAULT if v is None else v` / `v if v is not None else DEFAULT` (a setter shared with the constructor, inlined): on the restore path it is v
+            if isinstance(e, ast.IfExp) and isinstance(e.test, ast.Compare) and len(e.test.ops) == 1 and isinstance(e.test.left, ast.Name) \
+                    and isinstance(e.test.comparators[0], ast.Constant) and e.test.comparators[0].value is None:
+                v = e.test.left.id
+                if isinstance(e.test.ops[0], ast.Is) and isinstance(e.orelse, ast.Name) and e.orelse.id == v and not any(isinstance(x, ast.Name) and x.id in uses for x in ast.walk(e.body)):
+                    return e.orelse
+                if isinstance(e.test.ops[0], ast.IsNot) and isinstance(e.body, ast.Name) and e.body.id == v and not any(isinstance(x, ast.Name) and x.id in uses for x in ast.walk(e.orelse)):
+                    return e.body
+            return e
         for s in walk_scope(f.node):
-            if isinstance(s, ast.Assign) and len(s.targets) == 1 and isinstance(s.targets[0], ast.Attribute):
+            if isinstance(s, ast.AnnAssign) and s.value is not None and isinstance(s.target, ast.Attribute):
+                s.targets = [s.target]  # type: ignore[attr-defined]  # read like the plain assignment it is (the statement object itself stays: the CFG knows it)
+            if isinstance(s, (ast.Assign, ast.AnnAssign)) and len(getattr(s, "targets", [])) == 1 and isinstance(s.targets[0], ast.Attribute):
                 d = dotted(s.targets[0])
-                if d and isinstance(s.value, ast.Name) and s.value.id in uses:
-                    uses[s.value.id].append(f"store:{d.split('.', 1)[1]}")
+                sval = unguarded(s.value)
+                if d and isinstance(sval, ast.Name) and sval.id in uses:
+                    uses[sval.id].append(f"store:{d.split('.', 1)[1]}")
                     self.restore_stores.append(s)
                 elif d:
                     for x in ast.walk(s.value):
